@@ -279,34 +279,39 @@ where
     U: DataType,
     V: DataType,
 {
+    // Every method goes through `tri_mut_invalidating_caches()`, which (like the public
+    // `as_triangulation_mut()`) drops the duplicate-detection
+    // spatial index and the cached locate hint: an Edit-API flip adds/removes vertices and cells
+    // behind the Delaunay layer's back, so those caches would otherwise be stale for the next
+    // `insert()` (near-duplicates accepted, exact duplicates misreported).
     fn flip_k1_insert(
         &mut self,
         cell_key: CellKey,
         vertex: Vertex<K::Scalar, U, D>,
     ) -> Result<FlipInfo<D>, FlipError> {
-        self.tri.flip_k1_insert(cell_key, vertex)
+        self.tri_mut_invalidating_caches().flip_k1_insert(cell_key, vertex)
     }
 
     fn flip_k1_remove(&mut self, vertex_key: VertexKey) -> Result<FlipInfo<D>, FlipError> {
-        self.tri.flip_k1_remove(vertex_key)
+        self.tri_mut_invalidating_caches().flip_k1_remove(vertex_key)
     }
 
     fn flip_k2(&mut self, facet: FacetHandle) -> Result<FlipInfo<D>, FlipError> {
-        self.tri.flip_k2(facet)
+        self.tri_mut_invalidating_caches().flip_k2(facet)
     }
 
     fn flip_k3(&mut self, ridge: RidgeHandle) -> Result<FlipInfo<D>, FlipError> {
-        self.tri.flip_k3(ridge)
+        self.tri_mut_invalidating_caches().flip_k3(ridge)
     }
 
     fn flip_k2_inverse_from_edge(&mut self, edge: EdgeKey) -> Result<FlipInfo<D>, FlipError> {
-        self.tri.flip_k2_inverse_from_edge(edge)
+        self.tri_mut_invalidating_caches().flip_k2_inverse_from_edge(edge)
     }
 
     fn flip_k3_inverse_from_triangle(
         &mut self,
         triangle: TriangleHandle,
     ) -> Result<FlipInfo<D>, FlipError> {
-        self.tri.flip_k3_inverse_from_triangle(triangle)
+        self.tri_mut_invalidating_caches().flip_k3_inverse_from_triangle(triangle)
     }
 }
